@@ -275,6 +275,17 @@ func overlapOracle(c *Case) error {
 			return err
 		}
 		defer tx.Rollback()
+		// a second transaction on the same database while the first is open
+		tx2, err := db.Begin()
+		if err != nil {
+			return fmt.Errorf("a second transaction on the same database, begun while the first one is open: %v", err)
+		}
+		defer tx2.Rollback()
+		st2, err := tx2.Prepare(text)
+		if err != nil {
+			return fmt.Errorf("Prepare(%+q) in a second transaction begun while the first one is open: %v", text, err)
+		}
+		defer st2.Close()
 		st, err := tx.Prepare(text)
 		if err != nil {
 			return fmt.Errorf("Tx.Prepare(%+q): %v", text, err)
@@ -295,7 +306,11 @@ func overlapOracle(c *Case) error {
 			}
 			bound, _ := c.Tree.Bind(texts)
 			be := bound.Model()
-			r, qerr := st.Query(args...)
+			use := st
+			if len(open) == 1 {
+				use = st2 // the second execution runs in the other transaction
+			}
+			r, qerr := use.Query(args...)
 			if d.Rejects(be, c.GroupBy) {
 				if qerr == nil {
 					r.Close()
